@@ -174,7 +174,14 @@ class Prober:
         for attr, val in after:
             if attr == 'detail': detail = val
             if attr == 'comment': comment = val
-        p = {'kind': kind, 'cls': rec, 'named': cls_name is None and cls.__module__ == HX.__name__ and getattr(HX, cls.__name__, None) is cls,
+        def _split(v):
+            if v is not None and hasattr(v, '__html__'):
+                return str.__str__(v) if isinstance(v, str) else str(v), v.__html__()
+            return v, None
+        detail, detail_html = _split(detail)
+        comment, comment_html = _split(comment)
+        explanation, explanation_html = _split(explanation)
+        p = {'detail_html': detail_html, 'comment_html': comment_html, 'explanation_html': explanation_html, 'kind': kind, 'cls': rec, 'named': cls_name is None and cls.__module__ == HX.__name__ and getattr(HX, cls.__name__, None) is cls,
              'detail': detail, 'comment': comment, 'explanation': explanation, 'body_template': kw.get('body_template', body_template), 'has_body': has_body,
              'headers': hdrs, 'environ': [[k, v] for k, v in environ] + ([['HTTP_ACCEPT', accept]] if accept is not None else []),
              'q': q if q is not None else _q(accept),
@@ -279,6 +286,21 @@ def _probe_all(HX, classes):
                    dict(headers=[('Content-Type', 'text/plain')])):
             for acc in FORMS + ['*/*']:
                 P.probe('ctor', cls, acc, detail='D<&', **dict(kw, **st))
+    # --- values that are markup objects (a str subclass with __html__, like markupsafe.Markup): html_escape returns __html__() verbatim
+    class M(str):
+        def __new__(cls, text, html):
+            self = str.__new__(cls, text)
+            self._h = html
+            return self
+
+        def __html__(self):
+            return self._h
+    c_m = P.subclass(E, body_template_obj='${explanation}|${detail}|${comment}|${html_comment}')
+    for acc in FORMS:
+        P.probe('markup', c_m, acc, detail=M('d<', '<i>D</i>&'), comment=M('c<', '<u>C</u>'), explanation=M('e<', '<b>E</b>'), cls_name='P_markup')
+        P.probe('markup', c_m, acc, detail=M('', '<i>empty text is falsy</i>'), comment=M('', '<u>C</u>'), explanation=M('', '<b>E</b>'), cls_name='P_markup')
+        P.probe('markup', c_m, acc, detail=M('d<', '<i>D</i>'), comment='plain<', cls_name='P_markup')
+        P.probe('markup', nf, acc, detail=M('/p<', '/p<raw>'), comment=None)
     # --- as WSGI application
     for cls in (nf, HX.HTTPFound, HX.HTTPMethodNotAllowed, HX.HTTPNoContent):
         for acc in FORMS:
@@ -287,32 +309,148 @@ def _probe_all(HX, classes):
     return P
 
 
-def _router_probes(HX, problems):
-    """the Router's own 404 for sentinel paths: model input = HTTPNotFound(detail=path)"""
-    out = []
-    try:
-        from pyramid.config import Configurator
-        app = Configurator().make_wsgi_app()
-        rec, pr = _class_record(HX, HX.HTTPNotFound)
-        problems += pr
-        for path in ('/', '/P' + HOSTILE, '/a/é\U0001f600/${detail}'):
-            for acc in FORMS + [None]:
-                env = _environ(acc)
-                env.update({'wsgi.version': (1, 0), 'wsgi.url_scheme': 'http', 'wsgi.input': io.BytesIO(b''), 'wsgi.errors': sys.stderr,
-                            'wsgi.multithread': False, 'wsgi.multiprocess': False, 'wsgi.run_once': False})
-                env['PATH_INFO'] = path.encode('utf-8').decode('latin-1')
-                got = {}
+HOSTILE_REQ = [('', '', 'localhost:80'),
+               ('c<b>"\'&\u00e9/v<i>$$${detail}', 'q=<script>alert(1)</script>&a=1&b="2\'', 'ho<st>&"\':80')]
+ROUTER_ATTRS = ['detail', 'comment', 'message', 'explanation', 'header']
+ROUTER_KINDS = ['notfound', 'forbidden', 'mismatch', 'multiview_mismatch', 'route_without_view', 'csrf_origin', 'append_slash']
 
-                def run():
-                    body = b''.join(app(env, lambda s, h, e=None: got.update(h=h)))
-                    ct = [v for k, v in got['h'] if k.lower() == 'content-type']
-                    return (ct[0].split(';')[0].strip() if ct else None), (ct[0] if ct else None), body, False
-                out.append({'kind': 'router404', 'cls': rec, 'named': True, 'detail': path, 'comment': None, 'explanation': None,
-                            'body_template': None, 'has_body': False, 'headers': [], 'environ': [], 'q': _q(acc), 'observed': _observe(run),
-                            'accept': acc})
+
+def _router_suite(HX, problems):
+    """The values pyramid ITSELF puts into the exceptions it raises on the router's paths, over the debug-settings cube,
+    and the pages rendered from them.  -> (render probes, value facts)
+    value fact = (settings, kind, variant, attribute, type name, is a plain str or None, has __html__)"""
+    probes, facts = [], []
+    try:
+        import types
+        from pyramid.config import Configurator
+        from pyramid.security import Denied
+        seen = {}
+
+        def factory(handler, registry):
+            def tween(request):
+                resp = handler(request)
+                seen['resp'] = resp
+                if isinstance(resp, HX.HTTPException):
+                    seen['pre'] = [[k, v] for k, v in resp.headers.items()]
+                    seen['has_body'] = bool(resp.has_body)
+                return resp
+            return tween
+        mod = types.ModuleType('_c19_probe_tween')
+        mod.factory = factory
+        sys.modules['_c19_probe_tween'] = mod
+
+        class Res:
+            def __init__(self, name):
+                self.name = name
+
+            def __getitem__(self, k):
+                if k.startswith('c'):
+                    return Res(k)
+                raise KeyError(k)
+
+            def __repr__(self):
+                return '<Res %s>' % self.name          # a context whose repr shows request-derived text
+
+        class Deny:
+            def identity(self, request): return None
+            def authenticated_userid(self, request): return None
+            def permits(self, request, context, permission): return Denied('no <b>%s</b> for you', permission)
+            def remember(self, request, userid, **kw): return []
+            def forget(self, request, **kw): return []
+
+        def ok_view(request):
+            from pyramid.response import Response
+            return Response('ok')
+
+        def ok_view2(request):
+            from pyramid.response import Response
+            return Response('ok2')
+
+        def make_app(dn, da, dr, slash):
+            config = Configurator(settings={'pyramid.debug_notfound': dn, 'pyramid.debug_authorization': da, 'pyramid.debug_routematch': dr},
+                                  root_factory=lambda request: Res('root'))
+            config.set_security_policy(Deny())
+            config.add_tween('_c19_probe_tween.factory')
+            config.add_view(ok_view, name='secret', permission='p<erm>')
+            config.add_view(ok_view, name='pm', request_method='POST')
+            config.add_view(ok_view, name='pm2', request_method='POST')
+            config.add_view(ok_view2, name='pm2', request_method='PUT')
+            config.add_view(ok_view, name='csrf', require_csrf=True)
+            config.add_route('item', '/items/{id}')
+            config.add_route('slash', '/slash/')
+            config.add_view(ok_view, route_name='slash')
+            if slash:
+                config.add_notfound_view(append_slash=True)
+            return config.make_wsgi_app()
+
+        def request_for(kind, variant, accept):
+            extra, qs, host = HOSTILE_REQ[variant]
+            path = {'notfound': '/c1/' + extra + '/nothing', 'forbidden': '/c1/secret/' + extra, 'mismatch': '/pm/' + extra,
+                    'multiview_mismatch': '/pm2/' + extra, 'route_without_view': '/items/x' + extra.replace('/', '_'),
+                    'csrf_origin': '/csrf', 'append_slash': '/slash'}[kind]
+            env = _environ(accept)
+            env.update({'wsgi.version': (1, 0), 'wsgi.url_scheme': 'https' if kind == 'csrf_origin' else 'http', 'wsgi.input': io.BytesIO(b''),
+                        'wsgi.errors': io.StringIO(), 'wsgi.multithread': False, 'wsgi.multiprocess': False, 'wsgi.run_once': False})
+            env['PATH_INFO'] = path.encode('utf-8').decode('latin-1')
+            env['QUERY_STRING'] = qs
+            env['HTTP_HOST'] = host
+            if kind == 'csrf_origin':
+                env['REQUEST_METHOD'] = 'POST'
+                env['HTTP_ORIGIN'] = 'https://evil.example' + ('' if variant == 0 else '/<b>"&')
+            return env
+
+        for dn in (False, True):
+            for da in (False, True):
+                for dr in (False, True):
+                    for slash in (False, True):
+                        app = make_app(dn, da, dr, slash)
+                        tag = 'dn=%d,da=%d,dr=%d,slash=%d' % (dn, da, dr, slash)
+                        render = (dn == da == dr)          # pages are compared with the model for "all off" and "all on"
+                        for kind in ROUTER_KINDS:
+                            if kind == 'append_slash' and not slash:
+                                continue
+                            for variant in range(len(HOSTILE_REQ)):
+                                for acc in (FORMS if render else FORMS[:1]):
+                                    env = request_for(kind, variant, acc)
+                                    seen.clear()
+                                    got = {}
+
+                                    def run():
+                                        body = b''.join(app(env, lambda st, h, e=None: got.update(h=h)))
+                                        ct = [v for k, v in got['h'] if k.lower() == 'content-type']
+                                        return (ct[0].split(';')[0] if ct else None), (ct[0] if ct else None), body, False
+                                    obs = _observe(run)
+                                    resp = seen.get('resp')
+                                    if not isinstance(resp, HX.HTTPException):
+                                        problems.append('router %s %s: the response is %r, not an HTTP exception' % (tag, kind, type(resp).__name__))
+                                        continue
+                                    if acc == FORMS[0]:
+                                        vals = [('detail', resp.detail), ('comment', resp.comment), ('message', getattr(resp, 'message', None)),
+                                                ('explanation', resp.explanation)] + [('header:' + k, v) for k, v in seen['pre']]
+                                        for attr, v in vals:
+                                            facts.append(((dn, da, dr, slash), ROUTER_KINDS.index(kind), variant,
+                                                          ROUTER_ATTRS.index(attr.split(':')[0]), type(v).__name__, v is None or type(v) is str,
+                                                          hasattr(v, '__html__')))
+                                    if render:
+                                        rec, pr = _class_record(HX, type(resp))
+                                        problems += pr
+
+                                        def _split(v):
+                                            if v is not None and hasattr(v, '__html__'):
+                                                return (str.__str__(v) if isinstance(v, str) else str(v)), v.__html__()
+                                            return (v if v is None or isinstance(v, str) else str(v)), None
+                                        d, dh = _split(resp.detail)
+                                        c, ch = _split(resp.comment)
+                                        x, xh = _split(resp.explanation)
+                                        probes.append({'kind': 'router:' + kind, 'cls': rec, 'named': False, 'detail': d, 'comment': c,
+                                                       'explanation': x if x != rec['explanation'] else None, 'body_template': None,
+                                                       'has_body': seen['has_body'], 'headers': seen['pre'],
+                                                       'environ': [[k, v] for k, v in env.items() if isinstance(v, str)] if rec['custom'] else [],
+                                                       'q': _q(acc),
+                                                       'observed': obs, 'accept': acc, 'detail_html': dh, 'comment_html': ch, 'explanation_html': xh})
     except Exception as e:
         problems.append('router probes: %s: %s' % (type(e).__name__, e))
-    return out
+    return probes, facts
 
 
 class _Logging:
@@ -355,7 +493,7 @@ def _env_filter(HX, problems):
 
 def facts(src_root):
     problems = []
-    out = {'classes': [], 'probes': [], 'env_filter': [], 'prepare_shared': False, 'default_reads_environ': True}
+    out = {'classes': [], 'probes': [], 'env_filter': [], 'prepare_shared': False, 'default_reads_environ': True, 'router_values': []}
     try:
         HX = _load(src_root)
     except Exception as e:
@@ -374,7 +512,8 @@ def facts(src_root):
         problems += P.problems
     except Exception as e:
         problems.append('probing failed: %s: %s' % (type(e).__name__, e))
-    out['probes'] += _router_probes(HX, problems)
+    rp, out['router_values'] = _router_suite(HX, problems)
+    out['probes'] += rp
     out['env_filter'], out['default_reads_environ'] = _env_filter(HX, problems)
     out['problems'] = problems
     kinds = {}
@@ -407,6 +546,8 @@ def _lchar(ch):
 
 
 def _ltext(s):
+    if len(s) > 160:          # long literals in pieces: the elaborator's recursion depth
+        return '(' + ' ++ '.join(_ltext(s[i:i + 160]) for i in range(0, len(s), 160)) + ')'
     return '[' + ', '.join(_lchar(c) for c in s) + ']'
 
 
@@ -515,37 +656,52 @@ def generate(src_root):
           '/-- one probe: a complete input of the model and the observation made on the real code -/',
           'structure RenderProbe where', '  kind : String', '  cls : ClassInfo', '  detail : Option Text', '  comment : Option Text',
           '  explanation : Option Text', '  bodyTemplate : Option Text', '  hasBody : Bool', '  headers : List (Text × Text)',
-          '  environ : List (Text × Text)', '  qh : Nat', '  qj : Nat', '  qp : Nat', '  observed : Observed', 'deriving Repr', '',
+          '  environ : List (Text × Text)', '  qh : Nat', '  qj : Nat', '  qp : Nat', '  observed : Observed',
+          '  detailHtml : Option Text := none', '  commentHtml : Option Text := none', '  explanationHtml : Option Text := none',
+          'deriving Repr', '',
           'def probeCount : Nat := %d' % len(f['probes']),
           'def probeKinds : List (String × Nat) := [' + ', '.join('(%s, %d)' % (_lstr(k), v) for k, v in sorted(summary.get('probes', {}).items())) + ']', '',
           '/-- environ keys, the negotiated type, and whether the value under that key was stringified while the args of a custom template were built -/',
           'def envFilterProbes : List (Text × Text × Bool) := [' + ', '.join('(%s, %s, %s)' % (_ltext(k), _ltext(a), _lbool(b)) for k, a, b in f['env_filter']) + ']',
+          '/-- the values pyramid itself puts into the exceptions of the router paths -/',
+          'structure RouterValue where', '  debugNotfound : Bool', '  debugAuthorization : Bool', '  debugRoutematch : Bool', '  appendSlash : Bool',
+          '  kind : Nat      -- index into routerKinds', '  variant : Nat   -- 0 = benign request, 1 = markup in path, query string, Host, Origin',
+          '  attr : Nat      -- index into routerAttrs', '  typeName : String', '  plainStr : Bool  -- None or exactly `str`', '  hasHtml : Bool   -- has `__html__`',
+          'deriving Repr', '',
+          'def routerKinds : List String := [' + ', '.join(_lstr(k) for k in ROUTER_KINDS) + ']',
+          'def routerAttrs : List String := [' + ', '.join(_lstr(k) for k in ROUTER_ATTRS) + ']',
+          'def routerValues : List RouterValue := [' +
+          ',\n  '.join('⟨%s, %s, %s, %s, %d, %d, %d, %s, %s, %s⟩' % (_lbool(t[0]), _lbool(t[1]), _lbool(t[2]), _lbool(t[3]), k, v, a, _lstr(tn), _lbool(pl), _lbool(hh))
+                        for t, k, v, a, tn, pl, hh in f['router_values']) + ']', '',
           '/-- with the default body template: was any environ value looked at? -/',
           'def defaultTemplateReadsEnviron : Bool := ' + _lbool(f['default_reads_environ']),
           '', 'end Pyr.Gen.C19', '']
     files = {'PyramidModel/Gen/C19.lean': '\n'.join(L)}
     # the probes, in four modules (built in parallel), each in chunks so that no single definition gets huge
-    groups = {'A': [], 'B': [], 'C': [], 'D': [], 'E': []}
+    groups = {'A': [], 'B': [], 'C': [], 'D': [], 'E': [], 'F': []}
     for i, p in enumerate(f['probes']):
         k = p['kind'].split(':')[0]
-        g = 'A' if k == 'class' and p['q'][0] else 'B' if k == 'class' else 'C' if k == 'ascii' else 'E' if k == 'ctor' else 'D'
+        g = 'A' if k == 'class' and p['q'][0] else 'B' if k == 'class' else 'C' if k == 'ascii' else 'E' if k in ('ctor', 'markup') else 'F' if k == 'router' else 'D'
         groups[g].append(i)
     for g, idx in groups.items():
         M = ['import PyramidModel.Gen.C19',
              '/-! GENERATED by extract/c19.py (render probes, group %s) — do not edit. -/' % g,
-             'namespace Pyr.Gen.C19', 'open Pyr Pyr.HttpExc', '']
+             'namespace Pyr.Gen.C19', 'open Pyr Pyr.HttpExc', 'set_option maxRecDepth 4000', '']
         names = []
-        for n in range(0, len(idx), 30):
-            nm = 'probes%s%d' % (g, n // 30)
+        step = 10 if g == 'F' else 30
+        for n in range(0, len(idx), step):
+            nm = 'probes%s%d' % (g, n // step)
             names.append(nm)
             M.append('def %s : List RenderProbe := [' % nm)
-            for i in idx[n:n + 30]:
+            for i in idx[n:n + step]:
                 p = f['probes'][i]
                 M.append('  { kind := %s, cls := %s, detail := %s, comment := %s, explanation := %s, bodyTemplate := %s, hasBody := %s,\n'
-                         '    headers := %s, environ := baseEnviron ++ %s, qh := %d, qj := %d, qp := %d,\n    observed := %s },' % (
+                         '    headers := %s, environ := baseEnviron ++ %s, qh := %d, qj := %d, qp := %d,\n    observed := %s%s },' % (
                              _lstr(p['kind']), probe_cls[i], _lopt(p['detail']), _lopt(p['comment']), _lopt(p['explanation']),
                              _lopt(p['body_template']), _lbool(p['has_body']), _lheaders(p['headers']), _lpairs(p['environ']),
-                             p['q'][0], p['q'][1], p['q'][2], _lobs(p['observed'])))
+                             p['q'][0], p['q'][1], p['q'][2], _lobs(p['observed']),
+                             ''.join(', %s := %s' % (fld, _lopt(p[key])) for fld, key in (('detailHtml', 'detail_html'), ('commentHtml', 'comment_html'),
+                                                                                       ('explanationHtml', 'explanation_html')) if p.get(key) is not None)))
             M[-1] = M[-1].rstrip(',')
             M += [']', '']
         M += ['def probes%s : List (List RenderProbe) := [%s]' % (g, ', '.join(names)),
